@@ -49,6 +49,8 @@ class VttCue:
     right = "right"
 
   _EOL_SEQ_RE = re.compile(r"\n{2,}")
+  # a carriage return in the text is a line terminator for WebVTT readers
+  _LINE_BREAK_RE = re.compile(r"\r\n|\r|\n")
 
   def __init__(self, identifier: Optional[int] = None):
     self._id: int = identifier
@@ -108,7 +110,7 @@ class VttCue:
     """Remove line breaks at the beginning and end of the paragraph, and replace
     line break sequences with a single line break. Lines that contain only white space
     are removed too, since many WebVTT readers, including ttconv's, take them for the end of the cue."""
-    self._text = "\n".join(line for line in self._text.split("\n") if line.strip() != "")
+    self._text = "\n".join(line for line in self._LINE_BREAK_RE.split(self._text) if line.strip() != "")
 
   def append_text(self, text: str):
     """Appends text to the paragraph"""
